@@ -292,6 +292,9 @@ type ordResult struct {
 	b      bool
 	n      int64
 	multi  []ordResult // results of a multi-value return
+	// unknown: this component of a multi-value return is outside the fragment (w.t.Year() beside a
+	// constant width): left unassigned by the caller, the others keep their values
+	unknown bool
 }
 
 // run interprets a statement list; returns (result, returned).
@@ -309,11 +312,18 @@ func (e *ordEval) run(list []ast.Stmt) (ordResult, bool) {
 			if len(v.Results) > 1 {
 				var out ordResult
 				for _, re := range v.Results {
+					saved := e.err
+					var comp ordResult
 					if b, ok := e.info.TypeOf(re).Underlying().(*types.Basic); ok && b.Info()&types.IsBoolean != 0 {
-						out.multi = append(out.multi, ordResult{isBool: true, b: e.evalBool(re)})
+						comp = ordResult{isBool: true, b: e.evalBool(re)}
 					} else {
-						out.multi = append(out.multi, ordResult{n: e.evalInt(re)})
+						comp = ordResult{n: e.evalInt(re)}
 					}
+					if saved == "" && e.err != "" {
+						e.err = ""
+						comp = ordResult{unknown: true}
+					}
+					out.multi = append(out.multi, comp)
 				}
 				return out, true
 			}
@@ -375,7 +385,10 @@ func (e *ordEval) run(list []ast.Stmt) (ordResult, bool) {
 							if !isId || id.Name == "_" {
 								continue
 							}
-							if res.multi[i].isBool {
+							if res.multi[i].unknown {
+								delete(e.ints, e.info.ObjectOf(id))
+								delete(e.bools, id.Name)
+							} else if res.multi[i].isBool {
 								e.bools[id.Name] = res.multi[i].b
 							} else {
 								e.ints[e.info.ObjectOf(id)] = res.multi[i].n
